@@ -22,6 +22,7 @@ RDM_DESC = {
     'grp': lambda r: int(r) // 2,            # duplicates: 0,0,1,1,...
     'rname': lambda r: 's%d' % (9 - int(r)),  # strings, sorted order != id order
     'rflt': lambda r: 0.5 + int(r),
+    'ralt': lambda r: 'u%d' % (int(r) % 2),   # duplicates whose members are NOT adjacent: u0,u1,u0,u1
 }
 PAT_DESC = {
     'cid': lambda c: int(c),
